@@ -91,3 +91,193 @@ package compiler
 //@   property C13 C14
 //@   requires [wired] s.aliaser != nil
 //@   ensures [default_type] serviceType == nil ==> result == "interface{}"
+
+// ---- C02 / C04 / C15 / C12: the compiled output is a faithful, order-preserving image of the declared input.
+// resolve(x) below is what the injected argument resolver returns for x; resolving is a function of the argument
+// for the lifetime of one compilation (aliases, once given, do not change; see imports.Alias).
+
+//@ interface argResolver.ResolveArg(a any) (e resolver.ArgExpr, err error) pure
+//@ interface paramResolver.ResolveParam(a any) (e resolver.ParamExpr, err error) pure
+//@ interface aliasRegisterer.RegisterPrefixAlias(alias string, import_ string) error effect
+//@ interface funcRegisterer.RegisterFunc(fnAlias string, goImport string, goFn string) effect
+//@ interface inputValidator.Validate(input input.Input) error pure
+//@ interface Step.Process(i input.Input, o *output.Output) error effect
+//@   modifies *o
+
+//@ func argExprToArg pure
+//@   property C02 C06 C07
+//@   ensures [fields] result.Code == e.Code && result.Raw == e.Raw && result.DependsOnParams == e.DependsOnParams
+//@        && result.DependsOnServices == e.DependsOnServices && result.DependsOnTags == e.DependsOnTags
+
+// every argument is resolved, in order; the whole list is accepted iff every argument is
+//@ func resolveArgs pure
+//@   property C02 C04 C12
+//@   requires [wired] resolver != nil
+//@   ensures [same_length] len(r) == len(args)
+//@   ensures [in_order] forall k int :: 0 <= k && k < len(args) ==> r[k] == argExprToArg(resolver.ResolveArg(args[k]).0)
+//@   ensures [accept_sound @a] result.1 == nil ==> (forall k int :: 0 <= k && k < len(args) ==> resolver.ResolveArg(args[k]).1 == nil)
+//@   ensures [accept_complete @b] (forall k int :: 0 <= k && k < len(args) ==> resolver.ResolveArg(args[k]).1 == nil) ==> result.1 == nil
+//@   loop 1
+//@     invariant [len] len(r) == len(args) && len(errs) == $i
+//@     invariant [done] forall k int :: 0 <= k && k < $i ==> r[k] == argExprToArg(resolver.ResolveArg(args[k]).0)
+//@     invariant [a @a] allNilErrs(errs, len(errs)) ==> (forall k int :: 0 <= k && k < $i ==> resolver.ResolveArg(args[k]).1 == nil)
+//@     invariant [b @b] (forall k int :: 0 <= k && k < $i ==> resolver.ResolveArg(args[k]).1 == nil) ==> allNilErrs(errs, len(errs))
+
+//@ spec allNilErrs(es []error, k int) bool = forall q int :: 0 <= q && q < k ==> es[q] == nil
+
+// C04: tags keep their names, priorities and order
+//@ func (StepCompileServices).serviceTags pure
+//@   property C04 C02
+//@   ensures [same_length] len(r) == len(tags)
+//@   ensures [in_order] forall k int :: 0 <= k && k < len(tags) ==> r[k].Name == tags[k].Name && r[k].Priority == tags[k].Priority
+//@   loop 1
+//@     invariant [len] len(r) == $i
+//@     invariant [done] forall k int :: 0 <= k && k < $i ==> r[k].Name == tags[k].Name && r[k].Priority == tags[k].Priority
+
+// C02: calls keep their method, immutability flag and order; their arguments are resolved in order
+//@ func (StepCompileServices).serviceCalls pure
+//@   property C02 C12
+//@   requires [wired] s.argResolver != nil
+//@   ensures [same_length] len(r) == len(calls)
+//@   ensures [in_order] forall k int :: 0 <= k && k < len(calls) ==>
+//@        r[k].Method == calls[k].Method && r[k].Immutable == calls[k].Immutable && r[k].Args == resolveArgs(s.argResolver, calls[k].Args).0
+//@   ensures [accept_sound @a] result.1 == nil ==> (forall k int :: 0 <= k && k < len(calls) ==> resolveArgs(s.argResolver, calls[k].Args).1 == nil)
+//@   ensures [accept_complete @b] (forall k int :: 0 <= k && k < len(calls) ==> resolveArgs(s.argResolver, calls[k].Args).1 == nil) ==> result.1 == nil
+//@   loop 1
+//@     invariant [len] len(r) == len(calls) && len(errs) == $i
+//@     invariant [done] forall k int :: 0 <= k && k < $i ==>
+//@        r[k].Method == calls[k].Method && r[k].Immutable == calls[k].Immutable && r[k].Args == resolveArgs(s.argResolver, calls[k].Args).0
+//@     invariant [a @a] allNilErrs(errs, len(errs)) ==> (forall k int :: 0 <= k && k < $i ==> resolveArgs(s.argResolver, calls[k].Args).1 == nil)
+//@     invariant [b @b] (forall k int :: 0 <= k && k < $i ==> resolveArgs(s.argResolver, calls[k].Args).1 == nil) ==> allNilErrs(errs, len(errs))
+
+// C02 / C08: one field per declared key, in strictly increasing key order, each with the resolved value of that key
+//@ func (StepCompileServices).serviceFields pure
+//@   property C02 C08 C12
+//@   requires [wired] s.argResolver != nil
+//@   ensures [names_are_keys] forall k int :: 0 <= k && k < len(r) ==> (r[k].Name in fields) && r[k].Value == argExprToArg(s.argResolver.ResolveArg(fields[r[k].Name]).0)
+//@   ensures [every_key_present] forall n string :: n in fields ==> (exists k int :: 0 <= k && k < len(r) && r[k].Name == n)
+//@   ensures [sorted_by_name] forall a int, b int :: 0 <= a && a < b && b < len(r) ==> r[a].Name < r[b].Name
+//@   ensures [accept_sound @a] result.1 == nil ==> (forall n string :: n in fields ==> s.argResolver.ResolveArg(fields[n]).1 == nil)
+//@   ensures [accept_complete @b] (forall n string :: n in fields ==> s.argResolver.ResolveArg(fields[n]).1 == nil) ==> result.1 == nil
+//@   loop 1
+//@     invariant [names] forall k int :: 0 <= k && k < len(r) ==> (r[k].Name in visited) && r[k].Value == argExprToArg(s.argResolver.ResolveArg(fields[r[k].Name]).0)
+//@     invariant [present] forall n string :: n in visited ==> (exists k int :: 0 <= k && k < len(r) && r[k].Name == n)
+//@     invariant [sorted] forall a int, b int :: 0 <= a && a < b && b < len(r) ==> r[a].Name < r[b].Name
+//@     invariant [nonnil_errs] forall j int :: 0 <= j && j < len(errs) ==> errs[j] != nil
+//@     invariant [a @a] len(errs) == 0 ==> (forall n string :: n in visited ==> s.argResolver.ResolveArg(fields[n]).1 == nil)
+//@     invariant [b @b] (forall n string :: n in visited ==> s.argResolver.ResolveArg(fields[n]).1 == nil) ==> len(errs) == 0
+
+//@ func (StepCompileServices).serviceValue
+//@   property C02 C12
+//@   requires [wired] s.aliaser != nil
+//@   ensures [none] serviceValue == nil ==> result == ""
+//@ func (StepCompileServices).serviceConstructor
+//@   property C02 C12
+//@   requires [wired] s.aliaser != nil
+//@   ensures [none] c == nil ==> result == ""
+
+// C15 / C02: a todo service compiles to a bare placeholder carrying only its name (nothing else is looked at, nothing is
+// resolved); any other service keeps its name and is built from its own declaration, attribute by attribute.
+//@ func (StepCompileServices).processService pure
+//@   property C02 C15 C04 C13 C12
+//@   requires [wired] s.aliaser != nil && s.argResolver != nil
+//@   ensures [todo_placeholder] (i.Services[name].Todo != nil && *i.Services[name].Todo) ==>
+//@        result.1 == nil && o.Name == name && o.Todo && o.Getter == "" && !o.MustGetter && o.Type == "" && o.Value == "" && o.Constructor == ""
+//@        && len(o.Args) == 0 && len(o.Calls) == 0 && len(o.Fields) == 0 && len(o.Tags) == 0
+//@   ensures [declared_service] !(i.Services[name].Todo != nil && *i.Services[name].Todo) ==>
+//@        o.Name == name && !o.Todo
+//@        && o.Args == resolveArgs(s.argResolver, i.Services[name].Args).0
+//@        && o.Calls == s.serviceCalls(i.Services[name].Calls).0
+//@        && o.Fields == s.serviceFields(i.Services[name].Fields).0
+//@        && o.Tags == s.serviceTags(i.Services[name].Tags)
+//@   ensures [declared_service_accept @a] !(i.Services[name].Todo != nil && *i.Services[name].Todo) && result.1 == nil ==>
+//@        resolveArgs(s.argResolver, i.Services[name].Args).1 == nil && s.serviceCalls(i.Services[name].Calls).1 == nil
+//@        && s.serviceFields(i.Services[name].Fields).1 == nil
+
+//@ func (StepValidateInput).Process
+//@   property C11 C12
+//@   requires [wired] s.validator != nil
+//@   ensures [verdict_is_the_validators] (result == nil) <==> (s.validator.Validate(i) == nil)
+
+// C10 / C12: compile steps run in order and stop at the first failing one, so that later steps only ever see an input
+// that every earlier step (validation first) accepted.
+//@ func (Compiler).Compile
+//@   property C10 C12
+//@   requires [wired] forall j int :: 0 <= j && j < len(c.steps) ==> c.steps[j] != nil
+//@   ensures [runs_a_prefix_in_order] tlen() >= old(tlen()) && tlen() - old(tlen()) <= len(c.steps)
+//@        && (forall j int :: 0 <= j && j < tlen() - old(tlen()) ==> evIs(old(tlen()) + j, "internal/pkg/compiler:Step.Process") && evRecv(old(tlen()) + j) == c.steps[j])
+//@   ensures [earlier_steps_succeeded] forall j int :: 0 <= j && j < tlen() - old(tlen()) - 1 ==> evErr(old(tlen()) + j) == nil
+//@   ensures [success_means_all_ran_ok] result.1 == nil ==> tlen() - old(tlen()) == len(c.steps) && (forall j int :: 0 <= j && j < len(c.steps) ==> evErr(old(tlen()) + j) == nil)
+//@   ensures [failure_is_the_last_steps_error] result.1 != nil ==> tlen() > old(tlen()) && result.1 == evErr(tlen() - 1)
+//@   loop 1
+//@     invariant [count] tlen() == old(tlen()) + $i
+//@     invariant [order] forall j int :: 0 <= j && j < $i ==> evIs(old(tlen()) + j, "internal/pkg/compiler:Step.Process") && evRecv(old(tlen()) + j) == c.steps[j] && evErr(old(tlen()) + j) == nil
+
+// C02 / C08 / C05: one compiled service per declared service, in strictly increasing name order, each the image of
+// its own declaration, with the scope of its declaration.
+//@ func (StepCompileServices).Process
+//@   property C02 C08 C05 C15 C12
+//@   requires o != nil
+//@   requires [wired] s.aliaser != nil && s.argResolver != nil
+//@   requires [declared_scopes_are_keywords] forall n string :: n in i.Services && i.Services[n].Scope != nil ==>
+//@              (*i.Services[n].Scope == input.ScopeShared || *i.Services[n].Scope == input.ScopeContextual || *i.Services[n].Scope == input.ScopeNonShared)
+//@   modifies o.Services
+//@   ensures [each_is_a_declared_service] forall j int :: 0 <= j && j < len(o.Services) ==> (o.Services[j].Name in i.Services)
+//@        && o.Services[j].Args == s.processService(o.Services[j].Name, i).0.Args && o.Services[j].Calls == s.processService(o.Services[j].Name, i).0.Calls
+//@        && o.Services[j].Fields == s.processService(o.Services[j].Name, i).0.Fields && o.Services[j].Tags == s.processService(o.Services[j].Name, i).0.Tags
+//@        && o.Services[j].Todo == s.processService(o.Services[j].Name, i).0.Todo && o.Services[j].Getter == s.processService(o.Services[j].Name, i).0.Getter
+//@        && o.Services[j].Scope == convScope(i.Services[o.Services[j].Name].Scope)
+//@   ensures [every_declared_service_present] forall n string :: n in i.Services ==> (exists j int :: 0 <= j && j < len(o.Services) && o.Services[j].Name == n)
+//@   ensures [sorted_by_name] forall a int, b int :: 0 <= a && a < b && b < len(o.Services) ==> o.Services[a].Name < o.Services[b].Name
+//@   loop 1
+//@     invariant [each] forall j int :: 0 <= j && j < len(o.Services) ==> (o.Services[j].Name in visited) && o.Services[j] == s.processService(o.Services[j].Name, i).0
+//@     invariant [present] forall n string :: n in visited ==> (exists j int :: 0 <= j && j < len(o.Services) && o.Services[j].Name == n)
+//@     invariant [sorted] forall a int, b int :: 0 <= a && a < b && b < len(o.Services) ==> o.Services[a].Name < o.Services[b].Name
+
+// C04: a decorator keeps its tag and its arguments (resolved in order); its function is the alias-qualified declared one
+//@ func (StepCompileDecorators).processDecorator pure
+//@   property C04 C12
+//@   requires [wired] s.aliaser != nil && s.argResolver != nil
+//@   ensures [tag_and_raw] result.0.Tag == d.Tag && result.0.Raw == d.Decorator
+//@   ensures [args] result.0.Args == resolveArgs(s.argResolver, d.Args).0 && result.1 == resolveArgs(s.argResolver, d.Args).1
+
+// C04: decorators keep their declaration order (file order after merging)
+//@ func (StepCompileDecorators).Process
+//@   property C04 C12
+//@   requires d != nil
+//@   requires [wired] s.aliaser != nil && s.argResolver != nil
+//@   modifies d.Decorators
+//@   ensures [same_length] len(d.Decorators) == len(i.Decorators)
+//@   ensures [in_declaration_order] forall j int :: 0 <= j && j < len(i.Decorators) ==> d.Decorators[j] == s.processDecorator(i.Decorators[j]).0
+//@   ensures [accept_sound @a] result == nil ==> (forall j int :: 0 <= j && j < len(i.Decorators) ==> s.processDecorator(i.Decorators[j]).1 == nil)
+//@   ensures [accept_complete @b] (forall j int :: 0 <= j && j < len(i.Decorators) ==> s.processDecorator(i.Decorators[j]).1 == nil) ==> result == nil
+//@   loop 1
+//@     invariant [len] len(d.Decorators) == len(i.Decorators) && len(errs) == len(i.Decorators)
+//@     invariant [done] forall j int :: 0 <= j && j < $i ==> d.Decorators[j] == s.processDecorator(i.Decorators[j]).0
+//@     invariant [a @a] allNilErrs(errs, $i) ==> (forall j int :: 0 <= j && j < $i ==> s.processDecorator(i.Decorators[j]).1 == nil)
+//@     invariant [b @b] (forall j int :: 0 <= j && j < $i ==> s.processDecorator(i.Decorators[j]).1 == nil) ==> allNilErrs(errs, $i)
+//@     invariant [rest_nil] forall j int :: $i <= j && j < len(errs) ==> errs[j] == nil
+
+// C06 / C07 / C08: one compiled parameter per declared parameter, appended in strictly increasing name order; a parameter
+// keeps its name even when its value cannot be compiled; its dependency list is the resolver's.
+//@ func (StepCompileParams).Process
+//@   property C03 C06 C07 C08 C12
+//@   requires d != nil
+//@   requires [wired] s.resolver != nil
+//@   modifies d.Params
+//@   ensures [old_kept] len(d.Params) >= len(old(d.Params)) && (forall j int :: 0 <= j && j < len(old(d.Params)) ==> d.Params[j] == old(d.Params)[j])
+//@   ensures [each_is_declared] forall j int :: len(old(d.Params)) <= j && j < len(d.Params) ==> (d.Params[j].Name in i.Params)
+//@        && (s.resolver.ResolveParam(i.Params[d.Params[j].Name]).1 == nil ==> d.Params[j].DependsOn == s.resolver.ResolveParam(i.Params[d.Params[j].Name]).0.DependsOnParams
+//@              && d.Params[j].Code == s.resolver.ResolveParam(i.Params[d.Params[j].Name]).0.Code)
+//@   ensures [every_declared_present] forall n string :: n in i.Params ==> (exists j int :: len(old(d.Params)) <= j && j < len(d.Params) && d.Params[j].Name == n)
+//@   ensures [sorted_by_name] forall a int, b int :: len(old(d.Params)) <= a && a < b && b < len(d.Params) ==> d.Params[a].Name < d.Params[b].Name
+//@   ensures [accept_sound @a] result == nil ==> (forall n string :: n in i.Params ==> s.resolver.ResolveParam(i.Params[n]).1 == nil)
+//@   loop 1
+//@     invariant [old_kept] len(d.Params) >= len(old(d.Params)) && (forall j int :: 0 <= j && j < len(old(d.Params)) ==> d.Params[j] == old(d.Params)[j])
+//@     invariant [each] forall j int :: len(old(d.Params)) <= j && j < len(d.Params) ==> (d.Params[j].Name in visited)
+//@        && (s.resolver.ResolveParam(i.Params[d.Params[j].Name]).1 == nil ==> d.Params[j].DependsOn == s.resolver.ResolveParam(i.Params[d.Params[j].Name]).0.DependsOnParams
+//@              && d.Params[j].Code == s.resolver.ResolveParam(i.Params[d.Params[j].Name]).0.Code)
+//@     invariant [present] forall n string :: n in visited ==> (exists j int :: len(old(d.Params)) <= j && j < len(d.Params) && d.Params[j].Name == n)
+//@     invariant [sorted] forall a int, b int :: len(old(d.Params)) <= a && a < b && b < len(d.Params) ==> d.Params[a].Name < d.Params[b].Name
+//@     invariant [nonnil_errs] forall j int :: 0 <= j && j < len(errs) ==> errs[j] != nil
+//@     invariant [a @a] len(errs) == 0 ==> (forall n string :: n in visited ==> s.resolver.ResolveParam(i.Params[n]).1 == nil)
